@@ -1,4 +1,5 @@
 """C11 — the FastOps operator container's bookkeeping always agrees with its contents."""
+from checks import big_scale
 from checks import api_cov
 LEAN_TARGETS = ["QmcProps.C11", "drv_c11"]
 BINS = ["c11"]
@@ -75,4 +76,6 @@ def main(ck):
         cases = ck.harness("c11", ["hist"])
         ck.correspond("container-histories", "drv_c11", cases)
     api_cov.run(ck, "c11")   # otherwise unexercised public API, model-free oracles of this property
+    big_scale.run(ck, "manyops.onebond")   # large-scale regime (>65536 bonds/ops/slots, release semantics): model-free oracles of the property statements
+    big_scale.run(ck, "longstring.ring", tags=["C18"])   # large-scale regime (>65536 bonds/ops/slots, release semantics): model-free oracles of the property statements
     return ck.finish(RULE)
